@@ -44,6 +44,12 @@ func runC18(c *Ctx) {
 	checkAuthorSplit(c)
 	checkGuardedAliasesAndSnapshot(c, lw)
 	checkGoGitExclusive(c, "R18.11")
+	// no query meets an index document whose excerpt is not published yet / any more (shared with C11/C14)
+	c.Doc("R11.1", "per SubCache function: excerpts store ⇒ index write afterwards; delete ⇒ Index.Remove; reset ⇒ Index.Clear")
+	checkExcerptIndexPairing(c)
+	checkRemoveIndexUnderLock(c, "R14.11", lw)
+	// concurrent commits share the clock file: nothing but the clock's own path is written (shared with C06)
+	checkCrashLeftovers(c)
 	checkIdentityInterfaceLockFree(c, "R18.12", lw)
 	fns := lockScopeFns(w)
 	exemptHold := map[string]string{
